@@ -179,27 +179,30 @@ static void check_steps(pbt::Ctx& c, T x) {
 	c.nontrivial();
 }
 
-// T2: every 2^12-th float (random position inside the block) + every value within 70 steps of a binade boundary, of zero and of max
-static const uint64_t F32_STRIDED = 1ULL << 20, F32_EDGES = 256ULL * 2 * 141;
-static void prop_steps32(pbt::Ctx& c) {
-	uint64_t i = c.draw(F32_STRIDED + F32_EDGES);
-	uint32_t u;
-	if (i < F32_STRIDED) { u = (uint32_t)(i << 12) | (uint32_t)c.draw(4096); c.cls("strided"); }
-	else {
-		uint64_t j = i - F32_STRIDED; int off = (int)(j % 141) - 70; uint64_t be = j / 141; uint32_t s = (uint32_t)(be & 1), e = (uint32_t)(be >> 1);
-		int64_t mag = e == 0 ? off + 70 : ((int64_t)e << 23) + off;
-		if (mag > 0x7f7fffff) mag = 0x7f7fffff - (mag - 0x7f800000);
-		u = (uint32_t)mag | (s << 31);
-		c.cls("within 70 steps of a binade boundary / zero / max");
-	}
-	float x = u2f(u);
+// T2a: every float within 70 steps of a binade boundary, of zero and of +-max (complete in both tiers)
+static const uint64_t F32_EDGES = 256ULL * 2 * 141;
+static void prop_steps32_edges(pbt::Ctx& c) {
+	uint64_t j = c.draw(F32_EDGES);
+	int off = (int)(j % 141) - 70; uint64_t be = j / 141; uint32_t s = (uint32_t)(be & 1), e = (uint32_t)(be >> 1);
+	int64_t mag = e == 0 ? off + 70 : ((int64_t)e << 23) + off;
+	if (mag > 0x7f7fffff) mag = 0x7f7fffff - (mag - 0x7f800000);
+	float x = u2f((uint32_t)mag | (s << 31));
+	if (e == 0) c.cls("0..140 steps from zero"); else if (e == 255) c.cls("0..70 steps below max"); else if (e == 1) c.cls("around min_normal"); else c.cls("around a binade boundary");
+	check_steps<float>(c, x);
+}
+PBT_SWEEP("steps/float/binade-edges", prop_steps32_edges, F32_EDGES, 1, 1,
+          "every float within 70 steps of a binade boundary (both signs x 254 boundaries), 0..140 steps from +-0 and 0..70 steps below +-max: n-step overloads with n in {0,1,2,3,64,random 4..200}, "
+          "floatDistance to the n-th neighbour in both argument orders, vec1-4 overloads (int and ivec counts) on 4 distinct lanes; non-trivial = every case; classes: path inside a binade / across a "
+          "binade / across zero, negative, subnormal");
+
+// T2b: strided sample of all float patterns (one out of 2^12 quick, one out of 2^7 thorough; position inside the block chosen by the seed)
+static void prop_steps32_strided(pbt::Ctx& c) {
+	float x = u2f((uint32_t)c.draw(1ULL << 32));
 	if (!is_finite(x)) { c.cls("inf/NaN pattern (outside the domain, not evaluated)"); return; }
 	check_steps<float>(c, x);
 }
-PBT_SWEEP("steps/float/strided+binade-edges", prop_steps32, F32_STRIDED + F32_EDGES, 1, 1,
-          "one float out of every 2^12 consecutive patterns plus all patterns within 70 steps of a binade boundary, zero or max: n-step overloads with n in {0,1,2,3,64,random 4..200}, "
-          "floatDistance to the n-th neighbour in both argument orders, vec1-4 overloads (int and ivec counts) on 4 distinct lanes; non-trivial = finite x; classes: path inside a binade / across a "
-          "binade / across zero, negative, subnormal");
+PBT_SWEEP("steps/float/strided", prop_steps32_strided, 1ULL << 32, 4096, 128,
+          "one float out of every 2^12 (quick) / 2^7 (thorough) consecutive bit patterns: same checks as steps/float/binade-edges; non-trivial = finite x");
 
 // T3: doubles — every binade boundary: sign x exponent field x {mantissa 0,1,2,3, all-ones-{0,1,2}, 2^51, 8 random mantissas}
 static const uint64_t F64_EDGES = 2ULL * 2047 * 16;
@@ -219,7 +222,7 @@ PBT_SWEEP("steps/double/every-binade", prop_steps64_edges, F64_EDGES, 1, 1,
 
 template <class T> static void prop_steps_random(pbt::Ctx& c) { check_steps<T>(c, refulp::gen_base<T>(c)); }
 static void prop_steps_random64(pbt::Ctx& c) { prop_steps_random<double>(c); }
-PBT_RANDOM("steps/double/random", prop_steps_random64, 150000, 6000000,
+PBT_RANDOM("steps/double/random", prop_steps_random64, 150000, 10000000,
            "double x from: +-0, subnormals, binade boundaries +-3, +-max-k, the 141 values straddling zero, moderate, raw finite bit patterns; same checks; non-trivial = every case");
 
 // ---------------------------------------------------------------------------------------------------------------
